@@ -271,6 +271,19 @@ def gen_world(rng, cfg, *, nroots=1, hostile=True, links=True, max_files=24, fam
                     w.add_file(b2s(q), {"fam": 900 + len(extra), "len": ln, "flips": []},
                                mt=T0_NS - rng.randint(1, 10**6) * 10**9)
                     extra.append(b2s(q))
+    if hostile:
+        # confusable siblings of another kind: a name that, read as a shell pattern, matches ANOTHER existing file
+        # of the directory ("[b]" next to "b", "q?" next to "qz", "*star" next to "zstar"): unique content
+        for p in list(regular):
+            pb = s2b(p)
+            d, nm = os.path.split(pb)
+            alt = nm.replace(b"[b]", b"b").replace(b"?", b"z").replace(b"*", b"z").replace(b"{a,b}", b"a")
+            if alt != nm and rng.random() < 0.6:
+                q = d + b"/" + alt
+                if q not in names.used:
+                    names.used.add(q)
+                    w.add_file(b2s(q), {"fam": 950 + len(w.entries), "len": rng.choice(lengths) or 3, "flips": []},
+                               mt=T0_NS - rng.randint(1, 10**6) * 10**9)
     if hostile and regular and rng.random() < 0.25:
         # sibling DIRECTORIES whose names differ only in bytes that are not UTF-8 (and the replacement character
         # itself), each holding a copy under the same file name: any lossy rendering of the parent makes them one
